@@ -10,16 +10,17 @@ CFG = {
         "neg": {"header": H, "model_fn": "model_neg", "rule": "F"},
         "cmp": {"header": H, "model_fn": "model_cmp", "rule": "F"},
         "prim": {"header": H, "model_fn": "model_prim", "rule": "F"},
+        "cmpx": {"header": H, "model_fn": "model_cmpx", "rule": "F"},
     },
     "rule_text": "arith: one case = an operand pair (a, b) with the implementation's result of `{{ a OP b }}` for every OP in + - * / // % ** "
                  "that the model computes on that pair (integer results with their representation tag, float results by bit pattern, errors by class); "
-                 "cmp: one case = a pair with the six results of == != < <= > >=; neg: one operand; prim: Rust's own `as f64` / floor / trunc / `as i128` / `as u128` / `%` / rem_euclid / div_euclid "
+                 "cmp: one case = a pair with the six results of == != < <= > >= through the template operators AND, for two numbers, of Value::partial_cmp / Ord::cmp / == through the Rust API; every tier runs ALL ordered pairs of the core float pool (+-0.0, +-min subnormal, +-MIN_POSITIVE, +-1, +-(2^53-1), +-2^53, +-(2^53+2), +-2^63, +-2^64, +-2^127, +-2^128, +-MAX, +-inf, eight NaN bit patterns of both signs, quiet and signalling) and that pool against the width-boundary integers in both operand orders; cmpx: the same six operators with one operand computed inside the template (`0.0 * -1` = -0.0, `inf - inf` = the hardware NaN, ...); neg: one operand; prim: Rust's own `as f64` / floor / trunc / `as i128` / `as u128` / `%` / rem_euclid / div_euclid "
                  "against the model's f64 primitives. Distinct by the Gallina term of the case. Non-trivial = both operands usable numbers and not both zero (arith), "
-                 "operands of different representation (cmp), non-zero number (neg), non-integral or finite float / any integer (prim). "
+                 "operands of different representation, a NaN operand or two float zeros (cmp), every case (cmpx), non-zero number (neg), non-integral or finite float / any integer (prim). "
                  "NOT compared with the model, only run for the no-panic oracle (counted in extra.oracle_only_evaluations): `**` with a float operand or a negative "
                  "integer exponent (f64::powf). Float `//` and `%` ARE compared (f64::div_euclid / rem_euclid modelled over an exact fmod). "
-                 "Thorough tier: every ordered pair of boundary values (arith, one random representation per integer) and every ordered pair of pool numbers in "
-                 "every representation (cmp); quick tier: random pairs over the same pools + random integers of every bit length + floats next to integers.",
+                 "Thorough tier: every ordered pair of boundary values (arith, one random representation per integer) and every pool float against every boundary integer in every representation in both orders, every ordered pair of pool floats, every ordered pair of boundary integer values and "
+                 "of all representations of the width-boundary integers (cmp); quick tier: random pairs over the same pools + random integers of every bit length + floats next to integers.",
     "trusted_base": TB_COMMON + [
         "axioms: none (every C13 theorem is 'Closed under the global context')",
         "modelled, not verified: i128::checked_add/sub/mul/neg/pow, div_euclid/rem_euclid, wrapping_rem_euclid (modelled on Z with explicit range tests, "
